@@ -24,6 +24,8 @@ What is proved here (model M4, where every `expect("inconsistent state")`, `unre
   callee-side invariant of C02): `call_reply_lookups_hold` — `call_function_reply` never returns one of its
   `expect("inconsistent state")` results —, `remove_service_lookups_hold` — neither `remove_service` nor the loop over
   the calls the service holds does —, `call_function_lookups_hold`;
+* for ALL histories `claim_channel_end` finds the connection that holds the other end (`claim_lookup_holds`, from the
+  ownership invariant of C05: a claimed end is held by a connection that is there);
 Partial: the remaining `expect("inconsistent state")` sites (subscriptions, introspection, the owner lookups of the
 event handlers) are cross-reference lookups whose unreachability needs the subscription / introspection parts of the
 consistency invariant, which are not proved. It is covered by the correspondence runs of the "abuse" profile (the model reports the
@@ -34,6 +36,7 @@ import Aldrin.Lemmas.Broker.Gauge
 import Aldrin.Lemmas.Broker.Events
 import Aldrin.Lemmas.Broker.CallAsserts
 import Aldrin.Lemmas.Broker.Callee
+import Aldrin.Lemmas.Broker.Own
 
 namespace Aldrin.Broker
 
@@ -206,6 +209,98 @@ theorem call_function_lookups_hold {b : Broker} {w : Work} (h : Reachable b w) (
             · simp at hlo
           · simp at hlo
       · simp at hl
+
+theorem isNone_isSome_absurd {α : Type} {o : Option α} (h1 : o.isNone = true) (h2 : o.isSome = true) : False := by
+  cases o <;> simp_all
+
+theorem claimSender_other {c c' : Chan} {conn other : ConnId} {cap : Nat} (h : c.claimSender conn = .ok (.ok (c', other, cap))) :
+    endOwner c.receiver = some other := by
+  unfold Chan.claimSender at h
+  repeat' ((try simp only [] at h); split at h)
+  all_goals (try (simp at h; done))
+  all_goals (simp only [Except.ok.injEq, Prod.mk.injEq] at h; obtain ⟨_, rfl, _⟩ := h)
+  all_goals (simp_all [endOwner])
+
+theorem claimReceiver_other {c c' : Chan} {conn other : ConnId} {cap : Nat} (h : c.claimReceiver conn cap = .ok (.ok (c', other))) :
+    endOwner c.sender = some other := by
+  unfold Chan.claimReceiver at h
+  repeat' ((try simp only [] at h); split at h)
+  all_goals (try (simp at h; done))
+  all_goals (simp only [Except.ok.injEq, Prod.mk.injEq] at h; obtain ⟨_, rfl⟩ := h)
+  all_goals (simp_all [endOwner])
+
+theorem claimSender_error {c : Chan} {conn : ConnId} {p : Panic} (h : c.claimSender conn = .error p) : ∀ site, p ≠ .inconsistent site := by
+  unfold Chan.claimSender at h
+  repeat' ((try simp only [] at h); split at h)
+  all_goals (try (simp at h; done))
+  all_goals (simp only [Except.error.injEq] at h; subst h; intro site hh; cases hh)
+
+theorem claimReceiver_error {c : Chan} {conn : ConnId} {cap : Nat} {p : Panic} (h : c.claimReceiver conn cap = .error p) :
+    ∀ site, p ≠ .inconsistent site := by
+  unfold Chan.claimReceiver at h
+  repeat' ((try simp only [] at h); split at h)
+  all_goals (try (simp at h; done))
+  all_goals (simp only [Except.error.injEq] at h; subst h; intro site hh; cases hh)
+
+/-- **`claim_channel_end` finds the connection that holds the other end**, after every history, whoever claims whatever -/
+theorem claim_lookup_holds (es : List Event) (b : Broker) (w : Work) (outs : List (List Out))
+    (h : run {} {} es = .ok (b, w, outs)) (id : ConnId) (serial : Nat) (ck : Cookie) (e : ChanEnd) (cap : Nat) (site : String) :
+    claimChannelEnd ⟨b, w, []⟩ id serial ck e cap ≠ .error (.inconsistent site) := by
+  have hown := run_own es _ _ _ _ _ G2_init Own.init h
+  have there : ∀ (x : Hold) (o : ConnId), own ⟨b, w, []⟩ x = some o → (AL.find? o b.conns).isSome = true := by
+    intro x o hx
+    rcases hown.o1 x o hx with ⟨L, hl, _⟩ | ⟨L, hp, _⟩
+    · simp only [co, cv] at hl
+      split at hl
+      · rename_i conn hconn; simp [hconn]
+      · simp at hl
+    · simp at hp
+  intro he
+  unfold claimChannelEnd at he
+  split at he
+  · simp [okH] at he
+  · split at he
+    · simp at he
+    · rename_i ch hch
+      obtain ⟨os, or⟩ := own_chan (s := ⟨b, w, []⟩) hch
+      simp only [] at he
+      cases e <;> simp only [] at he
+      · cases hcl : ch.claimSender id with
+        | error p => simp only [hcl, Except.error.injEq] at he; exact claimSender_error hcl site he
+        | ok r =>
+          cases r with
+          | error r' => simp [hcl] at he
+          | ok v =>
+            obtain ⟨ch', other, c⟩ := v
+            simp only [hcl] at he
+            have hth := there (.rcv, ck) other (by rw [or]; exact claimSender_other hcl)
+            split at he
+            · rename_i hnone
+              simp only [St.conn?, St.send_b_conns] at hnone
+              have := conn?_isSome_updConn ((⟨b, w, []⟩ : St).setChannels (AL.insert ck ch' b.channels)) id
+                (fun c => { c with senders := sinsert ck c.senders }) other
+              simp only [St.conn?, St.setChannels_b_conns] at this
+              rw [hth] at this
+              exact isNone_isSome_absurd hnone this
+            · simp at he
+      · cases hcl : ch.claimReceiver id cap with
+        | error p => simp only [hcl, Except.error.injEq] at he; exact claimReceiver_error hcl site he
+        | ok r =>
+          cases r with
+          | error r' => simp [hcl] at he
+          | ok v =>
+            obtain ⟨ch', other⟩ := v
+            simp only [hcl] at he
+            have hth := there (.snd, ck) other (by rw [os]; exact claimReceiver_other hcl)
+            split at he
+            · rename_i hnone
+              simp only [St.conn?, St.send_b_conns] at hnone
+              have := conn?_isSome_updConn ((⟨b, w, []⟩ : St).setChannels (AL.insert ck ch' b.channels)) id
+                (fun c => { c with receivers := sinsert ck c.receivers }) other
+              simp only [St.conn?, St.setChannels_b_conns] at this
+              rw [hth] at this
+              exact isNone_isSome_absurd hnone this
+            · simp at he
 
 /-! non-vacuity: abuse by connection 1 (wrong direction, then it is gone); connection 0 is still served -/
 example : (match run {} {} [.newConn 0 20, .newConn 1 14, .msg 1 (.other 31), .msg 1 (.sync 5), .msg 0 (.sync 6)] with
